@@ -107,23 +107,54 @@ def register(reg):
             ]
             for lab, pred in checks:
                 bad = sorted(k for k, v in tab.items() if not pred(k, v))
-                ctx.prove('table[%s]:%s (all %d rows)' % (name, lab, len(tab)), not bad, 'table',
-                          src='failing rows: %s' % [(hex(k), tab[k]) for k in bad[:8]])
-            if name == 'defaults':
-                missing = [c for c in ACTIVE if ord(c) not in tab]
-                ctx.prove('table[%s]:the ten LaTeX-active ASCII characters have escapes' % name, not missing, 'table',
-                          src='missing: %r' % missing)
-                # each escape of an active character is inert: it does not contain the bare character itself
-                bad = [c for c in ACTIVE if ord(c) in tab and unescaped(tab[ord(c)], c) and c != '~']
-                ctx.prove('table[%s]:escapes of active characters do not contain the bare character' % name, not bad,
-                          'table', src='offending: %r' % bad)
-            else:
-                # the xml-derived table is documented as is; which active characters it escapes is recorded
-                have = [c for c in ACTIVE if ord(c) in tab]
-                ctx.collector.cover('table[unicode-xml] escapes %r' % have, True)
+                ctx.prove('table[%s]:%s (every row)' % (name, lab), not bad, 'table',
+                          src='%d rows; failing rows: %s' % (len(tab), [(hex(k), tab[k]) for k in bad[:8]]))
+            # "every LaTeX-active ASCII character of the input is neutralised", for either rule set
+            missing = [c for c in ACTIVE if ord(c) not in tab]
+            ctx.prove('table[%s]:the ten LaTeX-active ASCII characters have escapes' % name, not missing, 'table',
+                      src='missing: %r' % missing)
+            # each escape of an active character is inert: it does not contain the bare character itself
+            bad = [c for c in ACTIVE if ord(c) in tab and unescaped(tab[ord(c)], c) and c != '~']
+            ctx.prove('table[%s]:escapes of active characters do not contain the bare character' % name, not bad,
+                      'table', src='offending: %r' % bad)
     units['builtin-tables'] = LemmaUnit('builtin-tables', lemma_tables,
                                         functions=['pylatexenc.latexencode._uni2latexmap',
                                                    'pylatexenc.latexencode._uni2latexmap_xml'])
+
+    # ---- first sentence, necessary condition, decided row by row on the real code --------------------------------------------
+    # The property quantifies over all strings; taking the string to be one table character X (alone, and next to a letter or
+    # a digit) gives, for every row of the two tables and every brace scheme, a statement about finitely many concrete
+    # inputs.  It is decided by RUNNING the real encoder and the real strict parser on each of them (complete over the
+    # tables: every row, 4 schemes, 4 contexts; backend 'cpython').  It is a necessary condition only: that the encodings of
+    # arbitrary strings parse is not decided (see DESIGN, C13).
+    def lemma_rows_parse(it):
+        import json, subprocess, sys
+        ctx = it.ctx
+        env = dict(os.environ)
+        env['PYTHONPATH'] = it.program.root + os.pathsep + env.get('PYTHONPATH', '')
+        try:
+            p = subprocess.run([sys.executable, '-c', ROWS_PARSE_SCRIPT], capture_output=True, text=True, timeout=900, env=env)
+            res = json.loads(p.stdout)
+        except Exception as e:
+            raise EngineError('the row-by-row run of the encoder and the strict parser failed: %r %s'
+                              % (e, (locals().get('p') and p.stderr or '')[-300:]))
+        for name in ('defaults', 'unicode-xml'):
+            r = res[name]
+            bad = r['bad']
+            ctx.prove('table[%s]:rows-parse:every row and every LaTeX-active ASCII character was encoded and parsed '
+                      '(4 brace schemes x 4 contexts each)' % name, r['rows'] > 100 and r['runs'] == r['rows'] * 16, 'table',
+                      src='%d characters' % r['rows'])
+            ctx.prove('table[%s]:rows-parse:the encoding of X, Xa, aX and X1 parses in strict mode under every brace scheme, '
+                      'for every table character X other than those reported one by one below' % name, True, 'table',
+                      src='%d of %d rows' % (r['rows'] - len(bad), r['rows']))
+            for k in sorted(bad, key=lambda x: int(x)):
+                w = bad[k][0]
+                ctx.prove('table[%s]:rows-parse:U+%04X (%r) encoded alone, before a letter / digit and after a letter parses in '
+                          'strict mode under every brace scheme' % (name, int(k), r['values'][k]), False, 'table',
+                          src='%d failing cases, e.g. scheme %s, input %r -> output %r: %s' % (len(bad[k]), w[0], w[1], w[2], w[3]))
+    units['builtin-tables-rows-parse'] = LemmaUnit('builtin-tables-rows-parse', lemma_rows_parse,
+                                                   functions=['pylatexenc.latexencode._uni2latexmap',
+                                                              'pylatexenc.latexencode._uni2latexmap_xml'])
 
     # ---- ASCII closure lemmas over the C04 step contract ---------------------------------------------------------
     def lemma_ascii(it):
@@ -194,7 +225,53 @@ def register(reg):
 
     for k in units:
         contracts.REPLAYERS[k] = replay
+    contracts.REPLAYERS['builtin-tables-rows-parse'] = replay_row
     return {'C13': units}
+
+
+ROWS_PARSE_SCRIPT = r'''
+import json, sys
+from multiprocessing import Pool
+from pylatexenc.latexencode import UnicodeToLatexEncoder
+from pylatexenc.latexencode.get_builtin_rules import get_builtin_conversion_rules
+from pylatexenc.latexwalker import LatexWalker
+from pylatexenc.latexnodes.parsers import LatexGeneralNodesParser
+
+SCHEMES = ("braces", "braces-all", "braces-almost-all", "braces-after-macro")
+CONTEXTS = ("%s", "%sa", "a%s", "%s1")
+ACTIVE = "\\{}$&#^_%~"
+
+def job(a):
+    name, prot = a
+    tab = get_builtin_conversion_rules(name)[0].rule
+    u = UnicodeToLatexEncoder(conversion_rules=[name], replacement_latex_protection=prot, unknown_char_warning=False)
+    bad, runs = [], 0
+    keys = list(tab) + [ord(c) for c in ACTIVE if ord(c) not in tab]
+    for k in keys:
+        for c in CONTEXTS:
+            s = c % chr(k)
+            runs += 1
+            try:
+                o = u.unicode_to_latex(s)
+                LatexWalker(o, tolerant_parsing=False).parse_content(LatexGeneralNodesParser())
+            except Exception as e:
+                bad.append((k, prot, s, locals().get("o"), "%s: %s" % (type(e).__name__, str(e)[:80])))
+    return name, len(keys), runs, bad
+
+if __name__ == "__main__":
+    out = {}
+    with Pool(8) as pool:
+        for name, rows, runs, bad in pool.map(job, [(n, p) for n in ("defaults", "unicode-xml") for p in SCHEMES]):
+            r = out.setdefault(name, {"rows": rows, "runs": 0, "bad": {}, "values": {}})
+            r["runs"] += runs
+            for (k, prot, s, o, err) in bad:
+                r["bad"].setdefault(str(k), []).append([prot, s, o, err])
+    for name in out:
+        tab = get_builtin_conversion_rules(name)[0].rule
+        for k in out[name]["bad"]:
+            out[name]["values"][k] = tab.get(int(k), "(no rule: copied)")
+    print(json.dumps(out))
+'''
 
 
 NATIVE = PRELUDE + r'''
@@ -204,6 +281,10 @@ from pylatexenc.latexencode.get_builtin_rules import get_builtin_conversion_rule
 from pylatexenc.latexwalker import LatexWalker, LatexWalkerParseError
 from pylatexenc.latexnodes.parsers import LatexGeneralNodesParser
 from pylatexenc.latexnodes import nodes as N
+
+# rows of the unicode-xml table recorded as known findings (bare accent macros; see known_findings.json): inputs containing
+# them are not used by this search, every other input is
+KNOWN_BARE_ACCENTS = (0x300, 0x301, 0x302, 0x303, 0x304, 0x306, 0x307, 0x308, 0x30a, 0x30b, 0x30c, 0x327, 0x328)
 
 def search():
     active = "\\{}$&#^_%~"
@@ -229,13 +310,37 @@ def search():
                         return "policy 'fail' did not raise for %r (unencodable: %r)" % (s, unenc)
                     if not out.isascii():
                         return "output %r for %r is not ASCII (rules %s, %s, %s)" % (out, s, ruleset, prot, policy)
-                    if ruleset == "defaults" or "\u2028" in s:
+                    if not (ruleset == "unicode-xml" and any(ord(c) in KNOWN_BARE_ACCENTS for c in nfc)):
                         try:
                             LatexWalker(out, tolerant_parsing=False).parse_content(LatexGeneralNodesParser())
                         except LatexWalkerParseError as e:
                             return "output %r for %r does not parse in strict mode: %s (rules %s, %s, %s)" % (out, s, e, ruleset, prot, policy)
     return None
 '''
+
+
+def replay_row(o, model):
+    import re
+    m = re.match(r'table\[([a-z-]+)\]:rows-parse:U\+([0-9A-F]+) ', o['name'])
+    if not m:
+        return replay(o, model)
+    return PRELUDE + '''
+from pylatexenc.latexencode import UnicodeToLatexEncoder
+from pylatexenc.latexwalker import LatexWalker
+from pylatexenc.latexnodes.parsers import LatexGeneralNodesParser
+name, k = %r, 0x%s
+for prot in ("braces", "braces-all", "braces-almost-all", "braces-after-macro"):
+    u = UnicodeToLatexEncoder(conversion_rules=[name], replacement_latex_protection=prot, unknown_char_warning=False)
+    for c in ("%%s", "%%sa", "a%%s", "%%s1"):
+        s = c %% chr(k)
+        out = u.unicode_to_latex(s)
+        try:
+            LatexWalker(out, tolerant_parsing=False).parse_content(LatexGeneralNodesParser())
+        except Exception as e:
+            reproduced("UnicodeToLatexEncoder(conversion_rules=[%%r], replacement_latex_protection=%%r).unicode_to_latex(%%r) == %%r "
+                       "does not parse in strict mode: %%s: %%s" %% (name, prot, s, out, type(e).__name__, e))
+not_reproduced()
+''' % (m.group(1), m.group(2))
 
 
 def replay(o, model):
